@@ -254,6 +254,11 @@ func keyNames(is []int) []string {
 //go:norace
 func Run(t *testing.T, plan *Plan, src *simkit.Source, opts Options) *simkit.Result {
 	res := &simkit.Result{}
+	simkit.SetVerbose(plan.Verbose)
+	defer simkit.SetVerbose(false)
+	if plan.Verbose {
+		res.Count("fault:verbose_logging", 1)
+	}
 	h := simkit.Bubble(t, func() {
 		s := &Sim{plan: plan, src: src, res: res, Opts: opts}
 		s.run()
@@ -354,7 +359,11 @@ func (s *Sim) run() {
 	if !s.stop && !k.Aborting() && s.Opts.Heal {
 		s.opIdx = len(s.plan.Ops)
 		s.src.Segment(len(s.plan.Ops) + 1)
-		s.heal()
+		if s.plan.CloseEnd && !s.plan.Concurrent {
+			s.closePhase()
+		} else {
+			s.heal()
+		}
 	}
 	s.finish()
 }
@@ -1201,6 +1210,9 @@ func (s *Sim) heal() {
 		keys = append(keys, k)
 	}
 	sortStrings(keys)
+	if len(keys) > 8 {
+		keys = keys[:8] // scale fragments bind over a thousand keys
+	}
 	var probes []*Call
 	for _, k := range keys {
 		if k == "" || s.stop {
@@ -1248,6 +1260,72 @@ func (s *Sim) heal() {
 			s.afterOp()
 		}
 	}
+}
+
+// closePhase ends the run the way a channel ends: gRPC closes the balancer
+// (channel closed, or another policy selected) while calls are still in flight
+// and picks may be waiting. No balancer callback follows Close; picks on the
+// pickers published so far and completion callbacks still arrive. Judged for
+// crashes and progress only (C05, C06): a pick that waits must keep waiting
+// quietly (no spinning) until its context ends, and then return.
+//
+//go:norace
+func (s *Sim) closePhase() {
+	i := len(s.plan.Ops)
+	s.healing = true
+	s.env.FailNew = 0
+	s.k.Quiesce()
+	s.afterOp()
+	if s.stop || len(s.env.Pubs) == 0 {
+		return
+	}
+	s.degraded = true
+	s.model.track, s.model.degraded = true, true
+	s.env.Fired["balancer_closed_with_calls_in_flight"]++
+	s.spawnCore(i, "close", -1, 0, "", func() { s.bal.Close() })
+	s.k.Quiesce()
+	s.afterOp()
+	if s.stop {
+		return
+	}
+	// late picks on the last published picker
+	late := []*Call{s.probeCall(i, MPlain, nil), s.probeCall(i, MBind, []string{"late"})}
+	if s.stop {
+		return
+	}
+	// waiting picks: their contexts end now
+	for _, c := range s.calls {
+		if c.Invoked && !c.Returned && c.cancel != nil && !c.WasCancelled {
+			c.WasCancelled, c.CancelledAt = true, s.k.Elapsed()
+			s.cancelCtx(c.cancel)
+		}
+	}
+	s.k.Bump()
+	s.k.Quiesce()
+	s.afterOp()
+	if s.stop {
+		return
+	}
+	for _, c := range s.calls {
+		if c.Invoked && !c.Returned && c.task != nil && c.task.State() != kern.Done {
+			s.vio("C06", "pick-blocked-after-close", "", fmt.Sprintf("call %d (%s) still has not returned from Pick after the balancer was closed and its context ended (%v at %s)", c.ID, c.MethodName, c.task.State(), c.task.Site))
+			s.stop = true
+			return
+		}
+	}
+	// completion callbacks after Close
+	_ = late
+	for _, c := range s.calls {
+		if s.stop {
+			return
+		}
+		if c.InFlight && !c.waiter.IsSet() {
+			s.finishCall(i, c, []int{OutOK, OutAppErr, OutClientDE}[c.ID%3], nil)
+			s.k.Quiesce()
+			s.afterOp()
+		}
+	}
+	s.res.Count("close_phase_done", 1)
 }
 
 // preHealKeyProbe: the burst has quiesced but nothing has been healed yet, so
